@@ -219,9 +219,9 @@ def src(t, mode="min", rng=None, scope_names=None):
 
 
 def js_ref_hoisted(t, scope_names=None, concat_spread=False):
-    """The reference with the generator's documented evaluation ORDER: every dynamic index expression and every
-    left operand of ?? is evaluated once, before the expression itself (so it is evaluated even when a
-    short-circuiting operator or conditional would have skipped it)."""
+    """The reference with the generator's documented evaluation ORDER: every dynamic index expression, every
+    left operand of ?? and every condition of a conditional is evaluated once, before the expression itself
+    (so it is evaluated even when a short-circuiting operator or an enclosing conditional would have skipped it)."""
     hoist = []
     e = js_ref(t, scope_names, concat_spread, hoist)
     return "(function(){" + "".join(f"var {n}={v};" for n, v in hoist) + "return " + e + "})()"
@@ -242,6 +242,11 @@ def js_ref(t, scope_names=None, concat_spread=False, hoist=None):
         name = f"$h{len(hoist)}"
         hoist.append((name, left))
         return "(" + name + " ?? " + r(t[3]) + ")"
+    if hoist is not None and k == "cond":
+        c = r(t[1])
+        name = f"$h{len(hoist)}"
+        hoist.append((name, c))
+        return "(" + name + " ? " + r(t[2]) + " : " + r(t[3]) + ")"
     if k == "scope":
         return (scope_names[t[1]] if scope_names else f"s{t[1]}")
     if k == "data":
